@@ -149,6 +149,12 @@ def run_job(job):
         else:
             x = S.sym_real('x', (n, 2), 'float64' if p == 'float64' else 'uint8')
         y = data_for(dist, variant, n)
+        if dist != 'MIA' and p != 'float64':
+            # integer traces: values are those of the dtype; arithmetic carried out in an integer dtype must stay inside it (it would wrap)
+            CTX.int_range = True
+            for v in S.terms(x):
+                ex.assume(z3.And(E.R(v) >= 0, E.R(v) <= 255))
+        ranges = {}
 
         def feed(parts, computes):
             L.CLOCK.reset()
@@ -169,6 +175,7 @@ def run_job(job):
                             raise
             rt = result_terms(dist, o)
             rt2 = result_terms(dist, o)
+            ranges[(tuple(parts), computes)] = list({c.get_id(): c for k_, c in CTX.side[mark:] if k_.startswith('int-range')}.values())
             del CTX.side[mark:]
             return o, rt, rt2
         base, rbase, rbase2 = feed([n], False)
@@ -186,6 +193,8 @@ def run_job(job):
                 pr.prove(z3.BoolVal(not bad and o.processed_traces == n), desc + f': accumulators and trace count equal those of the single batch (differing: {bad})', wit, sample=(parts == [1] * n and computes))
                 badr = [nm for (nm, a), (_, b) in zip(rbase, rt) if tuple(S._w(a).shape) != tuple(S._w(b).shape) or not all(equal_elem(u, v) for u, v in zip(S._w(a).c.reshape(-1), S._w(b).c.reshape(-1)))]
                 pr.prove(z3.BoolVal(not badr), desc + f': result equals the single-batch result (differing: {badr})', wit, sample=False)
+                for c_ in ranges.get((tuple(parts), computes), [])[:64]:
+                    pr.prove(c_, desc + ': arithmetic carried out in an integer dtype stays inside the dtype (no wrap-around)', wit, sample=False)
                 badt = [nm for (nm, a), (_, b) in zip(rt, rt2) if not all(equal_elem(u, v) for u, v in zip(S._w(a).c.reshape(-1), S._w(b).c.reshape(-1)))]
                 pr.prove(z3.BoolVal(not badt), desc + f': asking twice without new data returns the same answer (differing: {badt})', wit, sample=False)
                 if res['failures']:
